@@ -231,6 +231,17 @@ func buildCorpus(caseFiles []string, repo string, tier string, rng *rand.Rand) (
 			items = append(items, item{Name: fmt.Sprintf("jpeg:extra-icc%d", nch), Fmt: "jpeg", Data: d, L: l, HasICC: true, Well: true})
 		}
 	}
+	// JPEG: one comment of every size from 65,470 to 65,533 bytes ahead of the scan: the end of what is
+	// needed lands at every offset around 64 KiB (and around a buffer of any nearby size)
+	for n := 65470; n <= 65533; n++ {
+		segs := []gen.JSeg{gen.SOI(), gen.JFIF(), gen.SOF(0xC0, 8, 21, 34, gen.StdComps(3, 0x22)), gen.COM(gen.Payload(n, uint32(n), true)),
+			gen.DQT(0), gen.DHT(0, 0), gen.SOS(3, gen.EntropyBytes(120, 5)), gen.EOI()}
+		d, l := gen.BuildJPEG(segs)
+		c := concrete.Case{Fmt: "jpeg"}
+		if dd, ll, ok := bigTail(c, concrete.Built{Data: d, Layout: l}, 1<<20); ok {
+			items = append(items, item{Name: fmt.Sprintf("jpeg:extra-com%d+big", n), Fmt: "jpeg", Data: dd, Tail: 1 << 20, L: ll, Well: true})
+		}
+	}
 	{ // JPEG: APP2 segments that are not ICC chunks (MPF index, FlashPix) ahead of, between and after the chunks
 		prof := gen.SimpleProfile(3000, "app2 neighbours", true, 77)
 		parts := gen.SplitICC(prof, 3)
@@ -387,6 +398,8 @@ func schedules(rng *rand.Rand, total int, tier string) []obs.Sched {
 	s = append(s, obs.Sched{Name: "full+eof", WithErr: true})
 	s = append(s, obs.Sched{Name: "fixed7+eof", Sizes: []int{7}, Cyclic: true, WithErr: true})
 	s = append(s, obs.Sched{Name: "full+idle2", IdleEvery: 2})
+	s = append(s, obs.Sched{Name: "idle-first+full", IdleFirst: true})
+	s = append(s, obs.Sched{Name: "idle-first+fixed7", Sizes: []int{7}, Cyclic: true, IdleFirst: true})
 	s = append(s, obs.Sched{Name: "fixed7+idle3", Sizes: []int{7}, Cyclic: true, IdleEvery: 3})
 	s = append(s, obs.Sched{Name: "fixed4097+idle5+eof", Sizes: []int{4097}, Cyclic: true, IdleEvery: 5, WithErr: true})
 	nr := 3
@@ -1024,6 +1037,7 @@ func loadsCmd(args []string) error {
 			}
 			jobs = append(jobs, job{it: it, cut: len(it.Data), s: obs.Full})
 			jobs = append(jobs, job{it: it, cut: len(it.Data), s: obs.Sched{Name: "fixed3", Sizes: []int{3}, Cyclic: true}})
+			jobs = append(jobs, job{it: it, cut: len(it.Data), s: obs.Sched{Name: "idle-first+full", IdleFirst: true}})
 			cuts := cutsFor(it, "quick", rng)
 			step := 7
 			if *tier == "thorough" {
